@@ -55,9 +55,11 @@ structure AllocSite where
 structure PlainAccess where
   cls : String
   fn : String
-  field : String
+  base : String     -- object expression ("" = this): local / parameter / member name
+  field : String    -- member name, or "call:<name>" for a designated call
   write : Bool
-  afterOp : Nat     -- number of synchronising operations of the function that precede it in source order
+  pos : Nat         -- position among the rows of this function (source order)
+  nOps : Nat        -- number of (non-assert) synchronising operations of the function that precede it lexically
   inAssert : Bool
   deriving DecidableEq, Repr, Inhabited
 
